@@ -93,7 +93,11 @@ func (in *inliner) expandGo(pk *packages.Package, file *ast.File, s inlineSiteT,
 	}
 	body := string(hsrc[in.off(fd.Body.Lbrace)+1 : in.off(fd.Body.Rbrace)])
 	var b strings.Builder
-	b.WriteString("go func(" + strings.Join(params, ", ") + ") " + res + "{")
+	kw := "go"
+	if _, isDefer := s.stmt.(*ast.DeferStmt); isDefer {
+		kw = "defer"
+	}
+	b.WriteString(kw + " func(" + strings.Join(params, ", ") + ") " + res + "{")
 	b.WriteString(in.lineDirective(fd.Body.Lbrace))
 	b.WriteString(body)
 	b.WriteString("\n}(" + strings.Join(args, ", ") + ")")
